@@ -14,7 +14,9 @@ NATIVE = 'plain'          # LIS.core.Rle and RP66V1.IndexXML import the LIS pack
 NEEDS = ('icontract',)
 RULE = ('Sequences: integer sequences built from runs (stride 0 / negative / large, repeat 0..20), irregular small-alphabet '
         'sequences (equal neighbours), wide random integers, strictly / weakly ascending sequences, float progressions with '
-        'relative noise from 1e-17 to 1e-6, sequences mapped through a function; exhaustively every sequence of length <= L over '
+        'relative noise from 1e-17 to 1e-6 (also zero stride and values recorded twice), sequences mapped through a function, a few long '
+        'sequences per shard (file positions / frame numbers of 1500..6000 values, regularly sampled float axes of 600..1500 values); a fifth '
+        'of the sequences are built by add() with queries between the additions; exhaustively every sequence of length <= L over '
         '{0,1,2,3}.  LIS: record triples (position strictly increasing, frames >= 1 equal and unequal, arbitrary first X); '
         'exhaustively every list of <= M records over gaps {16,48} x frames {1,2,3}.  Every valid index, every negative index, both '
         'out-of-range indices, every stored value and its +-1 neighbours as a query, every frame number.  A sequence is non-trivial '
@@ -23,7 +25,8 @@ RULE = ('Sequences: integer sequences built from runs (stride 0 / negative / lar
 ASSUMPTIONS = [
     'the plain Python list (and bisect on it) is the reference; floats are compared within (n+2)*eps*max|value| ("rounding of one stride", n = sequence length)',
     'largest_le is asserted only for ascending (non-decreasing) sequences; a query below the first value must be refused (ValueError/LookupError), not answered',
-    'float queries are placed between stored values, clear of them by more than the float tolerance',
+    'float queries are placed between stored values, clear of them by more than the float tolerance, below the first, above the last, and on stored values that stand clear of their lower neighbour by more than 64 x the tolerance (a wrong answer there is wrong by about a whole step)',
+    'beyond 64 values the tolerance for value(i)/first()/last()/largest_le is capped at a quarter of the smallest non-zero step (never below 8*eps*max|value|): no reading of "rounding of one stride" allows an error of a whole stride',
     'the XML hex form is only used for non-negative ascending integer sequences (file positions); IndexXML has no reader, the expansion datum+i*stride is done here in exact arithmetic',
     'sequences of one numeric type only (all int or all float); bool, None, mixed and non-numeric values are outside the quantifier',
 ]
@@ -37,13 +40,14 @@ MECHANISMS = [
     ('TotalDepth.RP66V1.IndexXML', 'xml_rle_write'),
 ]
 REQUIRED_MONITORS = ['list_by_position', 'list_by_iteration', 'count_first_last', 'index_out_of_range', 'bisect_largest_le',
-                     'frame_to_record', 'total_frames', 'triples_by_position', 'xml_round_trip',
+                     'interleaved_add_query', 'frame_to_record', 'total_frames', 'triples_by_position', 'xml_round_trip',
                      'contract:RLEItem.add', 'contract:RLE.add', 'contract:RLEType01.add']
 MIN_NONTRIVIAL = {'quick': 4000, 'thorough': 200000}
 TIMEOUT_S = {'quick': 300, 'thorough': 3000}
 NSHARDS = 16
 N_SEQ = {'quick': 15000, 'thorough': 300000}          # random sequences (all shards together)
 N_TRIPLES = {'quick': 4800, 'thorough': 48000}       # random triple lists (all shards together)
+N_LONG = {'quick': 3, 'thorough': 12}                # long sequences (thousands of values) per shard
 EXH_LEN = {'quick': 5, 'thorough': 7}                # every sequence of length <= L over {0,1,2,3}
 EXH_REC = {'quick': 4, 'thorough': 5}                # every record list of length <= M over gaps x frames
 EPS = 2.0 ** -52
@@ -52,7 +56,7 @@ KNOWN_CAP = 25                                       # instances of one known me
 
 def plan(tier, seed):
     return [{'part': i, 'parts': NSHARDS, 'n_seq': N_SEQ[tier] // NSHARDS, 'n_triples': N_TRIPLES[tier] // NSHARDS,
-             'exh_len': EXH_LEN[tier], 'exh_rec': EXH_REC[tier]} for i in range(NSHARDS)]
+             'exh_len': EXH_LEN[tier], 'exh_rec': EXH_REC[tier], 'n_long': N_LONG[tier]} for i in range(NSHARDS)]
 
 
 # ---------------------------------------------------------------------------------------------- known finding F11
@@ -104,6 +108,37 @@ def _c_zero_stride(v):
     return False
 
 
+def _float_floor_one_below(w):
+    """largest_le(q) on a float run: index = int((q - datum) // stride) lands one below the true index when q is (within
+    rounding) the stored value datum + i*stride, because float floor division of an almost-integer quotient rounds down;
+    the run then answers datum + (i-1)*stride, a whole stride below the stored value q.  Recompute exactly that."""
+    items = [tuple(x) for x in w.get('items', [])]
+    q, want, got = w.get('query'), w.get('expected'), w.get('got_value')
+    if not items or not isinstance(q, float) or not isinstance(got, float) or not isinstance(want, float):
+        return False
+    if w.get('run_for_query'):
+        d, s, r = w['run_for_query']          # the witness lists at most 390 runs; the run the query falls into is given separately
+    else:
+        k = bisect.bisect_right([d for d, _, _ in items], q)
+        if k == 0:
+            return False
+        d, s, r = items[k - 1]
+    if not isinstance(d, float) or not isinstance(s, float) or s <= 0 or r < 1 or q > d + s * r:
+        return False
+    idx = int((q - d) // s)
+    if got != d + s * idx or idx + 1 > r:
+        return False
+    above = d + s * (idx + 1)                      # the stored value the query stands for
+    t = 4 * EPS * max(abs(above), abs(q), abs(d))
+    return abs(above - q) <= t and abs(above - want) <= t
+
+
+@classifier('c16_float_largest_le_floor')
+def _c_float_floor(v):
+    """C16-N1: RLEItem.largest_le on float runs is one stride low for a query equal to a stored value (float floor division)."""
+    return v.get('monitor') == 'bisect_largest_le' and v.get('kind') == 'differs' and _float_floor_one_below(v['witness'])
+
+
 class Reporter:
     """rec.violation with a per-shard cap on instances of an already recognised mechanism and on any one kind."""
 
@@ -141,6 +176,19 @@ def tol_for(seq):
     return (len(seq) + 2) * EPS * m
 
 
+def tol_by_position(seq, tol):
+    """Tolerance for value(i) / first() / last().  The property allows "rounding of one stride"; (n+2)*eps*max grows with the
+    length of the sequence and for long, finely spaced sequences exceeds a whole stride, which no reading of the property
+    allows.  Beyond 64 values the tolerance is therefore capped at a quarter of the smallest non-zero step (never below
+    8*eps*max, the rounding of evaluating datum + i*stride)."""
+    if tol == 0 or len(seq) <= 64:
+        return tol
+    m = max(abs(x) for x in seq)
+    steps = [abs(b - a) for a, b in zip(seq, seq[1:]) if b != a]
+    cap = min(steps) / 4 if steps else 0.0
+    return max(8 * EPS * m, min(tol, cap))
+
+
 def same(got, exp, tol):
     if tol == 0:
         return got is not None and not isinstance(got, bool) and got == exp
@@ -159,13 +207,70 @@ def items_of(r):
 
 
 # ---------------------------------------------------------------------------------------------- one sequence
-def check_sequence(rec, rep, R, seq, kind, fn=None, queries=True):
+def build_interleaved(rec, rep, R, seq, kind, fn, rng):
+    """A history instead of a one-shot build: values are added one at a time and, between additions, the encoding built so
+    far is asked by position, by iteration, for its count / last value and (while ascending) for largest_le.  Whatever an
+    implementation remembers from a query must not survive the next addition.  Returns the RLE or None."""
+    r = R.RLE(fn) if fn else R.RLE()
+    exp = []
+    asc = True
+    every = len(seq) <= 12
+    for i, v in enumerate(seq):
+        try:
+            r.add(v)
+        except Exception as e:  # noqa
+            rep('interleaved_add_query', 'add-raises', 'RLE.add(%r) raised %s after %r' % (v, type(e).__name__, seq[:i][-8:]), {'seq': seq[:390], 'kind': kind, 'at': i}, exc=e)
+            return None
+        x = fn(v) if fn else v
+        if exp and x < exp[-1]:
+            asc = False
+        exp.append(x)
+        if not (every or rng.random() < 0.3):
+            continue
+        rec.mon('interleaved_add_query')
+        n = len(exp)
+        tol = tol_by_position(exp, tol_for(exp))
+        w = {'seq': seq[:390], 'kind': kind, 'added_so_far': n, 'items': items_of(r)[:60]}
+        js = sorted({0, n - 1, -1, -n, rng.randrange(n), rng.randrange(n) - n})
+        bad = None
+        try:
+            for j in js:
+                g = r.value(j)
+                if not same(g, exp[j], tol):
+                    bad = 'value(%d) -> %r, expected %r' % (j, g, exp[j])
+                    break
+            if bad is None and r.num_values() != n:
+                bad = 'num_values() -> %r, expected %d' % (r.num_values(), n)
+            if bad is None and not same(r.last(), exp[-1], tol):
+                bad = 'last() -> %r, expected %r' % (r.last(), exp[-1])
+            if bad is None and asc and not isinstance(exp[0], float):
+                q = exp[rng.randrange(n)] + rng.choice([0, 0, 1, -1])
+                k = bisect.bisect_right(exp, q)
+                if k:
+                    g = r.largest_le(q)
+                    if not (isinstance(g, (int, float)) and g == exp[k - 1]):
+                        bad = 'largest_le(%r) -> %r, expected %r' % (q, g, exp[k - 1])
+            if bad is None and (every or rng.random() < 0.2):
+                got = list(itertools.islice(r.values(), n + 3))
+                tl = tol_for(exp)
+                if len(got) != n or any(not same(g, x, tl) for g, x in zip(got, exp)):
+                    bad = 'values() -> %r' % (got[:20],)
+        except Exception as e:  # noqa
+            rep('interleaved_add_query', 'raises', 'after adding %d of %d values %r a query raised %s' % (n, len(seq), seq[:20], type(e).__name__), w, exc=e)
+            return None
+        if bad:
+            rep('interleaved_add_query', 'differs', 'after adding %d of %d values %r: %s' % (n, len(seq), seq[:20], bad), w)
+            return None
+    return r
+
+
+def check_sequence(rec, rep, R, seq, kind, fn=None, queries=True, prebuilt=None):
     """seq: the values handed to create_rle; the oracle is list(map(fn, seq))."""
     exp = [fn(x) for x in seq] if fn else list(seq)
     n = len(exp)
     tol = tol_for(exp)
     try:
-        r = R.create_rle(iter(seq), fn) if fn else R.create_rle(iter(seq))
+        r = prebuilt if prebuilt is not None else R.create_rle(iter(seq), fn) if fn else R.create_rle(iter(seq))
     except Exception as e:  # noqa
         rep('list_by_position', 'create-raises', 'create_rle(%r) raised %s' % (seq[:20], type(e).__name__), {'seq': seq, 'kind': kind}, exc=e)
         return
@@ -179,13 +284,14 @@ def check_sequence(rec, rep, R, seq, kind, fn=None, queries=True):
     nv, fi, la = r.num_values(), r.first(), r.last()
     if nv != n:
         rep('count_first_last', 'num_values', 'num_values()=%r for %d values %r' % (nv, n, seq[:20]), dict(w0, got=nv))
+    tolp = tol_by_position(exp, tol)
     if n == 0:
         if fi is not None or la is not None:
             rep('count_first_last', 'empty', 'first()/last() of an empty RLE = %r/%r' % (fi, la), dict(w0, got=[fi, la]))
     else:
-        if not same(fi, exp[0], tol):
+        if not same(fi, exp[0], tolp):
             rep('count_first_last', 'first', 'first()=%r expected %r for %r' % (fi, exp[0], seq[:20]), dict(w0, got=fi))
-        if not same(la, exp[-1], tol):
+        if not same(la, exp[-1], tolp):
             rep('count_first_last', 'last', 'last()=%r expected %r for %r' % (la, exp[-1], seq[:20]), dict(w0, got=la))
     # by iteration
     rec.mon('list_by_iteration')
@@ -208,7 +314,7 @@ def check_sequence(rec, rep, R, seq, kind, fn=None, queries=True):
             except Exception as e:  # noqa
                 bad = ('raises', j, type(e).__name__, e)
                 break
-            if not same(g, exp[j], tol):
+            if not same(g, exp[j], tolp):
                 bad = ('differs', j, g, None)
                 break
         if bad:
@@ -228,7 +334,7 @@ def check_sequence(rec, rep, R, seq, kind, fn=None, queries=True):
             rep('index_out_of_range', 'answered', 'value(%d) on %d values returned %r' % (j, n, g), dict(w0, index=j, got=repr(g)))
     # largest_le on ascending sequences
     if queries and n and all(b >= a for a, b in zip(exp, exp[1:])):
-        check_largest_le(rec, rep, r, exp, w0, tol)
+        check_largest_le(rec, rep, r, exp, w0, tolp)
     return r
 
 
@@ -242,6 +348,13 @@ def check_largest_le(rec, rep, r, exp, w0, tol):
                 qs.append(a + (b - a) / 2)
         span = max(1.0, abs(exp[0]), abs(exp[-1]))
         qs += [exp[0] - span, exp[-1] + span]
+        # the stored values themselves: "largest stored value not exceeding the query" is then the query (or an equal neighbour).
+        # Only values that stand clear of their lower neighbour by far more than the tolerance, so that a wrong answer is
+        # wrong by (nearly) a whole step and not a matter of rounding.
+        at_stored = [exp[0]] + [b for a, b in zip(exp, exp[1:]) if b - a > 64 * max(tol, EPS * abs(b))]
+        if len(at_stored) > 60:
+            at_stored = at_stored[:20] + at_stored[len(at_stored) // 2 - 10:len(at_stored) // 2 + 10] + at_stored[-20:]
+        qs += at_stored
     else:
         seen = set()
         for x in exp:
@@ -270,7 +383,12 @@ def check_largest_le(rec, rep, r, exp, w0, tol):
             if not k:
                 rep('bisect_largest_le', 'answered-below-first', 'largest_le(%r) on %r returned %r (nothing stored is <= query)' % (q, exp[:20], g), dict(w, got=repr(g)))
             elif not same(g, want, tol) and not (not isf and isinstance(g, (int, float)) and g == want):
-                rep('bisect_largest_le', 'differs', 'largest_le(%r) on %r = %r, bisect says %r' % (q, exp[:20], g, want), dict(w, got=repr(g)))
+                all_items = items_of(r)
+                kq = bisect.bisect_right([it[0] for it in all_items], q)
+                w = dict(w, got=repr(g), got_value=g if isinstance(g, float) else None,
+                         run_for_query=list(all_items[kq - 1]) if kq else None)
+                rep('bisect_largest_le', 'differs', 'largest_le(%r) on %r = %r, bisect says %r' % (q, exp[:20], g, want), w,
+                    known_as='C16-N1-float-floor' if _float_floor_one_below(w) else None)
 
 
 # ---------------------------------------------------------------------------------------------- XML round trip
@@ -361,7 +479,8 @@ def gen_runs(rng, ascending=None):
 
 def gen_float(rng):
     d = rng.choice([0.0, 1.0, -1.0, 1000.0, rng.uniform(-1e4, 1e4), rng.uniform(-1, 1) * 10 ** rng.randrange(-8, 12)])
-    s = rng.choice([0.1, 0.5, -0.5, 0.1524, -0.1524, 0.25, rng.uniform(-3, 3), rng.uniform(0.001, 1) * 10 ** rng.randrange(-6, 6)])
+    s = rng.choice([0.1, 0.5, -0.5, 0.1524, -0.1524, 0.25, rng.uniform(-3, 3), rng.uniform(0.001, 1) * 10 ** rng.randrange(-6, 6),
+                    0.0 if rng.random() < 0.4 else 0.1])          # a float that repeats (zero stride) is a sequence too
     n = rng.choice([2, 3, 5, 8, 13, 21, 40])
     noise = 10.0 ** rng.uniform(-17, -6)
     form = rng.random()
@@ -375,7 +494,40 @@ def gen_float(rng):
         seq.append(x)
     if rng.random() < 0.3:      # a second progression
         seq += [seq[-1] + 10 * s + i * (s / 2) for i in range(rng.randrange(1, 6))]
+    if rng.random() < 0.12:     # a value recorded twice in a row (equal neighbours) inside a float sequence
+        k = rng.randrange(len(seq))
+        seq[k:k] = [seq[k]] * rng.randrange(1, 3)
     return seq, noise
+
+
+def gen_long(rng, tier):
+    """Long sequences (what an index of a real file holds): thousands of values in few runs.  Returns (kind, seq)."""
+    n = rng.randrange(1500, 6000 if tier == 'quick' else 20000)
+    k = rng.random()
+    if k < 0.35:       # file positions: regular stride with an occasional irregular record
+        v, st, seq = rng.randrange(0, 10 ** 6), rng.choice([16, 1024, 8200, 65536]), []
+        for _ in range(n):
+            seq.append(v)
+            v += st if rng.random() < 0.998 else st + rng.randrange(1, 5000)
+        return 'long-int-positions', seq
+    if k < 0.5:        # frame numbers 1..n with a few gaps and repeats
+        seq, v = [], 1
+        for _ in range(n):
+            seq.append(v)
+            v += 1 if rng.random() < 0.999 else rng.choice([0, 2, 7])
+        return 'long-int-frames', seq
+    # a regularly sampled float axis, large magnitude relative to its spacing (rounding breaks such an axis into many runs and
+    # lookup by position walks the runs, so these stay shorter)
+    n = rng.randrange(600, 1500 if tier == 'quick' else 6000)
+    d = rng.choice([0.0, 1000.0, 1e6, rng.uniform(-1e5, 1e5)])
+    st = rng.choice([0.1524, -0.1524, 0.5, 1e-3, 1e-6 if abs(d) <= 1e6 else 1e-3, rng.uniform(0.01, 2)])
+    if rng.random() < 0.5:
+        return 'long-float-direct', [d + i * st for i in range(n)]
+    seq, v = [], d
+    for _ in range(n):
+        seq.append(v)
+        v += st
+    return 'long-float-accumulated', seq
 
 
 FUNCS = {'double+1': lambda x: 2 * x + 1, 'negate': lambda x: -x, 'div16': lambda x: x // 16}
@@ -413,6 +565,9 @@ def gen_triples(rng):
         x = float(x) + rng.choice([0.0, 0.5, 0.25, rng.random()])
     out = []
     frames = rng.randrange(1, 60)
+    big = rng.random() < 0.06        # frame counts beyond one byte / two bytes / a million per record
+    if big:
+        frames = rng.choice([255, 256, 257, 65535, 65536, 10 ** 6 + 1])
     gap = rng.choice([16, 1024, rng.randrange(1, 5000)])
     dx = rng.choice([0, 1, -1, 6, -6, rng.randrange(-50, 50)])
     if xf:
@@ -420,7 +575,7 @@ def gen_triples(rng):
     for _ in range(n):
         k = rng.random()
         if k < 0.25:
-            frames = rng.randrange(1, 60)
+            frames = rng.randrange(1, 60) if not big else rng.choice([1, 255, 256, 65535, 65536, 65537, 10 ** 6 + 1])
         if rng.random() < 0.25:
             gap = rng.choice([1, 16, 1024, rng.randrange(1, 5000)])
         if rng.random() < 0.15:
@@ -590,9 +745,23 @@ def run_shard(ctx, p):
             rec.cls('has-equal-neighbours')
         if any(b < a for a, b in zip(exp, exp[1:])):
             rec.cls('has-descent')
-        r = check_sequence(rec, rep, R, seq, kind, fn)
+        pre = None
+        if i % 5 == 1:
+            rec.cls('history:add-query-interleaved')
+            pre = build_interleaved(rec, rep, R, seq, kind, fn, rng)
+            if pre is None:
+                continue
+        r = check_sequence(rec, rep, R, seq, kind, fn, prebuilt=pre)
         if i % 3 == 0:
             xml_for(r, exp, kind)
+    # ---- long sequences
+    for i in range(p.get('n_long', 0)):
+        kind, seq = gen_long(rng, ctx.tier)
+        rec.case(('long', kind, len(seq), repr(seq[:4]), repr(seq[-2:])), True, classes=['seq:' + kind],
+                 sample={'kind': kind, 'length': len(seq), 'first': seq[:5]} if i < 1 else None)
+        r = check_sequence(rec, rep, R, seq, kind)
+        if i == 0:
+            xml_for(r, seq, kind)
     # ---- generated triple lists
     for i in range(p['n_triples']):
         triples = gen_triples(rng)
